@@ -62,6 +62,7 @@ type fnInfo struct {
 	n      int
 	ipdom  []*ssa.BasicBlock // per block index; nil = virtual exit
 	nphis  []int
+	simple map[int]int // per If-block index: 1 = acyclic small region up to the join, 2 = not
 }
 
 func buildFnInfo(fn *ssa.Function) *fnInfo {
@@ -219,6 +220,7 @@ type Engine struct {
 	journal []jent
 	KnownOpen map[string]bool
 	Redirect  map[string]string
+	ForkIn    map[string]bool // functions in which a symbolic branch whose region contains a loop or return forks instead of merging
 }
 
 type Options struct {
@@ -249,7 +251,7 @@ func NewEngine(p *Program, o Options) (*Engine, error) {
 	}
 	e := &Engine{P: p, C: smt.NewCtx(), lay: newLayout(p.IntW), opts: o,
 		glob: map[*ssa.Global]*Object{}, inited: map[*ssa.Package]bool{},
-		noMerge: map[ssa.Instruction]bool{}, qcache: map[[2]int]smt.Verdict{}, funcs: map[string]bool{}, stubs: map[string]bool{}, UFStubs: map[string]bool{}, Redirect: map[string]string{}}
+		noMerge: map[ssa.Instruction]bool{}, qcache: map[[2]int]smt.Verdict{}, funcs: map[string]bool{}, stubs: map[string]bool{}, UFStubs: map[string]bool{}, Redirect: map[string]string{}, ForkIn: map[string]bool{}}
 	s, err := smt.NewSolver(e.C, o.Timeout, o.SolverArgv...)
 	if err != nil {
 		return nil, err
@@ -348,4 +350,53 @@ func (e *Engine) globalObj(x *Exec, g *ssa.Global) *Object {
 	e.glob[g] = o
 	e.ensureInit(x, g.Pkg)
 	return o
+}
+
+// regionSimple reports whether the region between the branch in block b and its join is
+// acyclic, free of returns and small (a plain diamond); such branches are always merged.
+func (fi *fnInfo) regionSimple(fn *ssa.Function, b *ssa.BasicBlock) bool {
+	finfoMu.Lock()
+	defer finfoMu.Unlock()
+	if fi.simple == nil {
+		fi.simple = map[int]int{}
+	}
+	if v, ok := fi.simple[b.Index]; ok {
+		return v == 1
+	}
+	join := fi.ipdom[b.Index]
+	ok := join != nil
+	seen := map[int]bool{}
+	onStack := map[int]bool{b.Index: true}
+	var dfs func(x *ssa.BasicBlock)
+	dfs = func(x *ssa.BasicBlock) {
+		if !ok || x == join {
+			return
+		}
+		if onStack[x.Index] {
+			ok = false
+			return
+		}
+		if seen[x.Index] {
+			return
+		}
+		seen[x.Index] = true
+		if len(seen) > 16 || len(x.Succs) == 0 {
+			ok = false
+			return
+		}
+		onStack[x.Index] = true
+		for _, s := range x.Succs {
+			dfs(s)
+		}
+		onStack[x.Index] = false
+	}
+	for _, s := range b.Succs {
+		dfs(s)
+	}
+	if ok {
+		fi.simple[b.Index] = 1
+	} else {
+		fi.simple[b.Index] = 2
+	}
+	return ok
 }
